@@ -74,6 +74,14 @@ def fin {α} (r : Res α) (s : String) : String :=
   | .panic => "panic"
   | _ => s
 
+def showStrRes : StrRes → String
+  | .ok n => s!"ok:{n}"
+  | .invalidData => "inv"
+  | .err e => showErr e
+  | .panic => "panic"
+  | .ub => "ub"
+  | .fuel => "fuel"
+
 def showUnit : Unit → String := fun _ => "ok"
 def showN : Nat → String := fun n => s!"ok:{n}"
 
@@ -249,6 +257,18 @@ def step (_ : Unit) (line : String) : Unit × String :=
         let (res, r', d') := readToEnd (fuelFor (some r) none d.cap) r d
         fin res (s!"{showRes showN res} {showDst d'} | {showRd r'}")
       | _, _ => "bad-op"
+    | ["rs", r, d] =>
+      match parseRd r, parseDst d with
+      | some r, some d =>
+        let (res, r', d') := readToString (fuelFor (some r) none d.cap) r d
+        if res = .panic then "panic" else s!"{showStrRes res} {showDst d'} | {showRd r'}"
+      | _, _ => "bad-op"
+    | ["rsat", src, pos, d] =>
+      match parseHex src, pos.toNat?, parseDst d with
+      | some src, some pos, some d =>
+        let (res, d') := readToStringAt src d pos
+        if res = .panic then "panic" else s!"{showStrRes res} {showDst d'}"
+      | _, _, _ => "bad-op"
     | ["ap", r, d] =>
       match parseRd r, parseDst d with
       | some r, some d =>
